@@ -1,1 +1,185 @@
-print("selftest: placeholder")
+"""Self-tests of the reference machinery (run by setup.sh, < 30 s).
+
+1. evaluator vs plain float evaluation: the float result must lie within the evaluator's own bound
+   (validates the *bound*, the safety-critical part);
+2. evaluator vs exact rational arithmetic on + - * / and integer powers;
+3. forward-mode AD vs mpmath.diff;
+4. decision-margin logic on hand-written tie / near-tie cases;
+5. renderer/scanner round trip of generated models (names, kinds, right-hand sides).
+"""
+from __future__ import annotations
+
+import math
+import random
+import sys
+from fractions import Fraction
+
+import mpmath
+
+from .gen.exprs import ExprGen, Profile
+from .gen.models import gen_model
+from .refmodel import evalref as E
+from .refmodel.model import RefModel
+
+PYENV = {"exp": math.exp, "cos": math.cos, "sin": math.sin, "tan": math.tan, "acos": math.acos, "asin": math.asin, "atan": math.atan, "log": math.log, "ln": math.log,
+         "sqrt": math.sqrt, "abs": abs, "Abs": abs, "floor": math.floor, "pi": math.pi, "Mod": lambda a, b: a - b * math.floor(a / b),
+         "Conditional": lambda c, a, b: a if c else b, "Lt": lambda a, b: a < b, "Gt": lambda a, b: a > b, "Le": lambda a, b: a <= b, "Ge": lambda a, b: a >= b, "Eq": lambda a, b: a == b,
+         "Not": lambda a: not a, "And": lambda *a: all(a), "Or": lambda *a: any(a)}
+
+
+def t_bound(n=4000):
+    rng = random.Random(1)
+    bad = checked = 0
+    prof = Profile(ccond=False, cond=False)  # eager python conditionals would evaluate both branches
+    names = ["x", "y", "z"]
+    for i in range(n):
+        g = ExprGen(rng, names, prof)
+        tx = g.num(3)
+        env = {k: rng.choice([0.5, 1.25, -0.75, 2.0, 3.5, rng.uniform(-3, 3)]) for k in names}
+        env["t"] = env["time"] = 0.375
+        try:
+            node, src = E.parse_expr(tx)
+            ev = E.Evaluator({k: E.val_from_float(v) for k, v in env.items()}, {}, {})
+            val = ev.expr(node, src)
+        except (E.Undefined, E.Undecidable, E.Unsupported):
+            continue
+        if not E.well_conditioned(val):
+            continue
+        try:
+            got = eval(compile(src, "<e>", "eval"), dict(PYENV), dict(env))
+        except (ZeroDivisionError, ValueError, OverflowError, TypeError):
+            continue
+        if isinstance(got, complex):
+            continue
+        checked += 1
+        if not E.agrees(float(got), val):
+            bad += 1
+            print("BOUND VIOLATED:", tx, env, got, val, file=sys.stderr)
+    return checked, bad
+
+
+def t_rational(n=1500):
+    rng = random.Random(2)
+    bad = checked = 0
+    for i in range(n):
+        leaves = [str(rng.randint(-9, 9)) for _ in range(4)] + ["0.5", "0.25", "1.5"]
+        tx = rng.choice(leaves)
+        for _ in range(rng.randint(1, 5)):
+            op = rng.choice(["+", "-", "*", "/"])
+            r = rng.choice(leaves)
+            tx = f"({tx}) {op} ({r})"
+        try:
+            exact = eval(tx.replace("/", "/"), {"__builtins__": {}}, {}) if False else None
+        except Exception:
+            pass
+        try:
+            fr = eval(compile(__import__("re").sub(r"(\d+\.?\d*)", r"Fraction('\1')", tx), "<f>", "eval"), {"Fraction": Fraction})
+        except ZeroDivisionError:
+            continue
+        try:
+            node, src = E.parse_expr(tx)
+            val = E.Evaluator({}, {}, {}).expr(node, src)
+        except (E.Undefined, E.Undecidable):
+            continue
+        checked += 1
+        want = E.mpf(fr.numerator) / E.mpf(fr.denominator)
+        if abs(val.v - want) > E.mpf(10) ** -50 * (1 + abs(want)):
+            bad += 1
+            print("RATIONAL MISMATCH:", tx, val, fr, file=sys.stderr)
+    return checked, bad
+
+
+def t_ad(n=600):
+    rng = random.Random(3)
+    bad = checked = 0
+    prof = Profile(ccond=False, cond=False, mod=False, funcs=["exp", "cos", "sin", "atan", "log", "sqrt", "tan"])
+    for i in range(n):
+        g = ExprGen(rng, ["x", "x", "y"], prof)
+        tx = g.num(3)
+        x0, y0 = rng.choice([0.5, 1.25, 2.0, 0.75]), rng.choice([0.5, 1.5])
+        node, src = E.parse_expr(tx)
+
+        def f(xv):
+            ev = E.Evaluator({"x": E.Val(E.mpf(xv), E.ZERO, False), "y": E.val_from_float(y0), "t": E.val_from_float(0.5), "time": E.val_from_float(0.5)}, {}, {})
+            return ev.expr(node, src).v
+
+        try:
+            ev = E.Evaluator({"x": E.val_from_float(x0, 1), "y": E.val_from_float(y0, 0), "t": E.val_from_float(0.5, 0), "time": E.val_from_float(0.5, 0)}, {}, {}, want_d=True)
+            val = ev.expr(node, src)
+            with mpmath.workdps(40):
+                num = E.ctx.diff(f, E.mpf(x0))
+        except (E.Undefined, E.Undecidable, E.Unsupported, ZeroDivisionError, ValueError):
+            continue
+        if val.d is None:
+            continue
+        checked += 1
+        if abs(val.d - num) > E.mpf("1e-15") * (1 + abs(num) + (val.dm or 0)):
+            bad += 1
+            print("AD MISMATCH:", tx, x0, y0, val.d, num, file=sys.stderr)
+    return checked, bad
+
+
+def t_margins():
+    bad = 0
+
+    def ev(tx, **kw):
+        node, src = E.parse_expr(tx)
+        e = E.Evaluator({k: E.val_from_float(v) for k, v in kw.items()}, {}, {})
+        return e.expr(node, src)
+
+    cases = [
+        ("Conditional(Eq(x, 1), 10, 20)", {"x": 1.0}, 10), ("Conditional(Ge(x, 0), 10, 20)", {"x": 0.0}, 10), ("floor(2*x)", {"x": 1.5}, 3),
+        ("Conditional(Lt(x, 1.5), 10, 20)", {"x": 1.5}, 20), ("Mod(x, 2)", {"x": -1.25}, 0.75), ("Mod(x, -2)", {"x": 1.25}, -0.75), ("Conditional(Le(-1.125, x), 1, 2)", {"x": -1.125}, 1),
+    ]
+    for tx, env, want in cases:
+        try:
+            v = ev(tx, **env)
+            if float(v.v) != want:
+                bad += 1
+                print("MARGIN VALUE:", tx, env, v, want, file=sys.stderr)
+        except (E.Undefined, E.Undecidable) as exc:
+            bad += 1
+            print("MARGIN should be decidable:", tx, env, exc, file=sys.stderr)
+    for tx, env in [("Conditional(Eq(0.1*3, 0.3), 1, 2)", {}), ("Conditional(Lt(x/3, 1), 1, 2)", {"x": 3.0}), ("floor(x*10)", {"x": 0.3}), ("1/(x - x*1.0000000001)", {"x": 1.0})]:
+        try:
+            v = ev(tx, **env)
+            if E.well_conditioned(v):
+                bad += 1
+                print("MARGIN should be undecidable:", tx, env, v, file=sys.stderr)
+        except (E.Undefined, E.Undecidable):
+            pass
+    return len(cases) + 4, bad
+
+
+def t_roundtrip(n=400):
+    bad = 0
+    for i in range(n):
+        rng = random.Random(f"rt:{i}")
+        spec = gen_model(rng, Profile(), depth=2)
+        text = spec.render(rng)
+        m = RefModel.from_text(text)
+        want_states = {s[0] for s in spec.states}
+        want_params = {p[0] for p in spec.params}
+        want_assign = {a[0]: (a[1], a[2]) for a in spec.assigns}
+        ok = set(m.states) == want_states and set(m.params) == want_params and set(m.assigns) == set(want_assign)
+        ok = ok and all("".join(m.assigns[k].rhs.split()) == "".join(v[0].split()) and m.assigns[k].comps == ((v[1],) if True else None) for k, v in want_assign.items())
+        ok = ok and m.ill_formed() is None
+        if not ok:
+            bad += 1
+            print("ROUNDTRIP MISMATCH in model", i, file=sys.stderr)
+    return n, bad
+
+
+def main():
+    total_bad = 0
+    for name, fn in (("float-bound", t_bound), ("rational", t_rational), ("forward-AD", t_ad), ("margins", t_margins), ("render/scan", t_roundtrip)):
+        n, bad = fn()
+        total_bad += bad
+        print(f"selftest {name}: {n} checked, {bad} failed")
+        if n == 0:
+            total_bad += 1
+    sys.exit(1 if total_bad else 0)
+
+
+if __name__ == "__main__":
+    main()
